@@ -62,7 +62,10 @@ let eval old toks =
   | ["add_eq"; a; b; c; d] -> outr ((pick rdpe_add_eq rdpe_add_eq_old) (rd a b) (rd c d))
   | ["sub"; a; b; c; d] -> outr ((pick rdpe_sub rdpe_sub_old) (rd a b) (rd c d))
   | ["sub_eq"; a; b; c; d] -> outr ((pick rdpe_sub_eq rdpe_sub_old) (rd a b) (rd c d))
-  | ["pow_si"; a; b; i] | ["pow_eq_si"; a; b; i] -> outr ((pick rdpe_pow_si rdpe_pow_si_old) (rd a b) (z_of_dec i))
+  | ["pow_si"; a; b; i] | ["pow_eq_si"; a; b; i] ->
+      (* the code before fixes/C12_pow_si_long_min.patch does not terminate on LONG_MIN: outside the old model *)
+      if old && i = "-9223372036854775808" then "OOM"
+      else outr ((pick rdpe_pow_si rdpe_pow_si_old) (rd a b) (z_of_dec i))
   | ["cmp"; a; b; c; d] -> string_of_z ((pick rdpe_cmp rdpe_cmp_old) (rd a b) (rd c d))
   | ["sgn"; a; b] -> string_of_z (rdpe_sgn (rd a b))
   | ["eq_zero"; a; b] -> outb (rdpe_eq_zero (rd a b))
@@ -95,7 +98,9 @@ let eval old toks =
   | ["cdiv_2exp"; a; b; c; d; i] | ["cdiv_eq_2exp"; a; b; c; d; i] -> outc (cdpe_div_2exp (cd a b c d) (z_of_dec i))
   | ["cmul_d"; a; b; c; d; x] -> outc (cdpe_mul_d (cd a b c d) (fl x))
   | ["cdiv_d"; a; b; c; d; x] -> outc (cdpe_div_d (cd a b c d) (fl x))
-  | ["cpow_si"; a; b; c; d; i] -> outc ((pick cdpe_pow_si cdpe_pow_si_old) (cd a b c d) (z_of_dec i))
+  | ["cpow_si"; a; b; c; d; i] | ["cpow_eq_si"; a; b; c; d; i] ->
+      if old && i = "-9223372036854775808" then "OOM"
+      else outc ((pick cdpe_pow_si cdpe_pow_si_old) (cd a b c d) (z_of_dec i))
   | ["cset_d"; x; y] -> outc (cdpe_set_d (fl x) (fl y))
   | ["cget_d"; a; b; c; d] | ["cget_x"; a; b; c; d] ->
       let (x, y) = (pick cdpe_get_d cdpe_get_d_old) (cd a b c d) in hx x ^ " " ^ hx y
@@ -126,7 +131,6 @@ let eval old toks =
   | ["cmul_eq_d"; a; b; c; d; x] -> outc (cdpe_mul_d (cd a b c d) (fl x))
   | ["cdiv_eq_d"; a; b; c; d; x] -> outc (cdpe_div_d (cd a b c d) (fl x))
   | ["cmul_x"; a; b; c; d; x; y] | ["cmul_eq_x"; a; b; c; d; x; y] -> outc (cdpe_mul_x (cd a b c d) (fl x) (fl y))
-  | ["cpow_eq_si"; a; b; c; d; i] -> outc ((pick cdpe_pow_si cdpe_pow_si_old) (cd a b c d) (z_of_dec i))
   | ["ceq_zero"; a; b; c; d] -> outb (cdpe_eq_zero (cd a b c d))
   | ["ceq"; a; b; c; d; e; f; g; h] -> outb (cdpe_eq (cd a b c d) (cd e f g h))
   | ["cne"; a; b; c; d; e; f; g; h] -> outb (cdpe_ne (cd a b c d) (cd e f g h))
